@@ -48,17 +48,24 @@ func (c07) Runs(tier string) int {
 
 var c07Segs = []string{"a", "b", "ab", "a.", "a-", "a0", "a b", "A", "z", "é", "日", "a!", "a~", "0", "-", "_x", "a+b", "dir", "d", "x.y"}
 
+var c07PlainSegs = []string{"a", "b", "ab", "a0", "A", "z", "é", "日", "a~", "0", "_x", "dir", "d", "xy", "a_b", "~", "aa", "b1"}
+
 func c07GenKeys(r *rand.Rand) []string {
 	n := r.IntN(41)
 	set := map[string]bool{}
+	plain := r.IntN(2) == 0
 	for i := 0; i < n; i++ {
 		depth := 1 + r.IntN(3)
 		var parts []string
 		for j := 0; j < depth; j++ {
-			parts = append(parts, c07Segs[r.IntN(len(c07Segs))])
+			if plain {
+				parts = append(parts, c07PlainSegs[r.IntN(len(c07PlainSegs))])
+			} else {
+				parts = append(parts, c07Segs[r.IntN(len(c07Segs))])
+			}
 		}
 		k := strings.Join(parts, "/")
-		if r.IntN(10) == 0 {
+		if r.IntN(10) == 0 && !plain {
 			k += "/" // explicit directory object
 		}
 		set[k] = true
@@ -317,7 +324,16 @@ func (c07) Exec(c *core.Case) (out *core.Outcome) {
 		desc := fmt.Sprintf("query %d: List%s prefix=%q delimiter=%q max-keys=%d marker/start-after=%q over %d keys", qi, api, q.Prefix, q.Delim, q.MaxKeys, q.Marker, len(keys))
 		one := func() c07Prog { return c07Prog{Keys: p.Keys, Queries: []c07Query{q}, Restart: false} }
 		viol := func(kind, format string, a ...any) {
-			o.Violate("listing", fmt.Sprintf("C07/%s/%s/delim=%s", api, kind, delimClass(q.Delim)), "%s: "+format, append([]any{desc}, a...)...)
+			// root-cause oriented signature: three input features are known to break listings on the
+			// unchanged tree whatever the symptom; everything else is reported by symptom
+			sig := fmt.Sprintf("C07/plain/%s/%s/delim=%s", api, kind, delimClass(q.Delim))
+			switch {
+			case kind == "internal-name" || kind == "wrong-size-or-etag" || kind == "request-fails":
+				sig = fmt.Sprintf("C07/%s/%s", kind, feature(keys, q))
+			case feature(keys, q) != "plain":
+				sig = "C07/" + feature(keys, q)
+			}
+			o.Violate("listing", sig, "%s: "+format, append([]any{desc}, a...)...)
 			o.SetReplayP(one())
 		}
 		o.AddClass("%s|delim=%s|max=%s|marker=%s|%s|walk=%v", shape, delimClass(q.Delim), maxClass(q.MaxKeys), markerClass, api, q.Walk)
@@ -521,4 +537,29 @@ func writeLeftoverTemp(e *env.Env, bkt string) {
 	dir := e.Dirs.Root + "/" + bkt + "/.sgwtmp"
 	osMkdirAll(dir)
 	osWriteFile(dir+"/leftover.tmp000001", []byte("leftover"))
+}
+
+// feature names the input feature that is known to defeat the directory-walk based lister.
+func feature(keys []string, q c07Query) string {
+	if q.Delim != "" && q.Delim != "/" {
+		return "non-slash-delimiter"
+	}
+	dirobj, below := false, false
+	for _, k := range keys {
+		if strings.HasSuffix(k, "/") {
+			dirobj = true
+		}
+		for i := 0; i < len(k); i++ {
+			if k[i] < '/' {
+				below = true
+			}
+		}
+	}
+	switch {
+	case dirobj:
+		return "directory-objects-in-bucket"
+	case below:
+		return "names-with-bytes-below-slash"
+	}
+	return "plain"
 }
